@@ -20,7 +20,8 @@ import (
 // there. The calibrated production list is committed in c03_grammar.json; the check never
 // re-calibrates at run time (VERIF_CALIB=C03 regenerates the file, development only).
 
-var c03Prefixes = []string{"1", "1'", "1\"", "1)", "1')", "1\")", "x'", "x\"", "'", "\"", "-1", "1.0", "1'))", "a' "}
+var c03Prefixes = []string{"1", "1'", "1\"", "1)", "1')", "1\")", "x'", "x\"", "'", "\"", "-1", "1.0", "1'))", "a' ",
+	"the quick brown fox jumps over'", "1 2 3 4 5 6 7'", "a b c d e f g\""} // multi-word values: the breaking quote lies beyond the first five tokens
 
 // payloads are token lists; tokens are joined by the separator under test
 var c03Payloads = map[string][][]string{
@@ -44,6 +45,10 @@ var c03Payloads = map[string][][]string{
 		{"and", "1=convert(int,@@version)"}, {"and", "updatexml(1,concat(0x7e,user()),1)"}, {"or", "ascii(substring(user(),1,1))>64"},
 		{"and", "load_file('/etc/passwd')"}, {"and", "(select", "count(*)", "from", "t)>0"}, {"or", "exists(select", "1)"},
 		{"and", "if(1=1,sleep(5),0)"}, {"procedure", "analyse()"},
+		// the words the folder promotes to functions when followed by "("
+		{"and", "user()", "=", "'a'"}, {"and", "user_id()", "=", "1"}, {"and", "user_name()", "=", "'dbo'"}, {"and", "database()", "=", "'a'"}, {"and", "password()", "=", "'a'"},
+		{"and", "current_user()", "=", "'a'"}, {"and", "current_date()", "=", "1"}, {"and", "current_time()", "=", "1"}, {"and", "current_timestamp()", "=", "1"},
+		{"and", "localtime()", "=", "1"}, {"and", "localtimestamp()", "=", "1"},
 	},
 	"truncation": {
 		{"or", "1=1", "--"}, {"--"}, {"#"}, {"/*"}, {"or", "1=1", "#"}, {"or", "1=1", "/*"}, {";", "--"}, {")", "--"}, {"or", "1=1", ";", "--"},
